@@ -169,11 +169,11 @@ Lemma write_read_int z d r sev :
 Proof.
   intros Hd Hr. unfold write_int. destruct (z <? 0) eqn:E.
   - apply Z.ltb_lt in E. destruct (write_nat_val (- z) ltac:(lia)) as [Hv [Hds Hne]].
-    pose proof (read_integer_accepts (Some true) (write_nat (- z)) d r sev Hd Hds Hne) as H.
+    pose proof (read_integer_accepts (Some true) (write_nat (- z)) [] d r sev Hd Hds Hne eq_refl) as H.
     cbn zeta in H. rewrite Hv in H. replace (- - z) with z in H by lia. specialize (H Hr).
     exact H.
   - apply Z.ltb_ge in E. destruct (write_nat_val z E) as [Hv [Hds Hne]].
-    pose proof (read_integer_accepts None (write_nat z) d r sev Hd Hds Hne) as H.
+    pose proof (read_integer_accepts None (write_nat z) [] d r sev Hd Hds Hne eq_refl) as H.
     cbn zeta in H. rewrite Hv in H. specialize (H Hr). exact H.
 Qed.
 
